@@ -2,6 +2,7 @@ package main
 
 import (
 	"fmt"
+	"go/ast"
 	"go/token"
 	"sort"
 	"strings"
@@ -19,11 +20,12 @@ import (
 // one of its own parameters as the format (a wrapper) - is a constant of the program.
 // One obligation per call site, named by function and ordinal; no symbolic execution.
 type Sweep struct {
-	Kind  string
-	Props []string
-	Pkgs  []string
-	File  string
-	Line  int
+	Kind    string
+	Props   []string
+	Pkgs    []string // constfmt: package paths; embeds: Var=file pairs
+	PkgPath string   // package of the contract file that declares the sweep
+	File    string
+	Line    int
 }
 
 // formatArg: index of the format operand of the known formatting functions.
@@ -37,6 +39,62 @@ var baseFormatFns = map[string]int{
 func (p *Program) runSweep(sw *Sweep) *Unit {
 	u := p.NewUnit(nil, nil)
 	u.name = "sweep " + sw.Kind
+	if sw.Kind == "embeds" {
+		// sweep embeds [Cxx] Var=file ...: the //go:embed directive of package variable
+		// Var (in the package of the contract file) names exactly that file - the link
+		// between a script variable and the statements it carries is made by the
+		// compiler, outside SSA, so it is checked on the declaration.
+		pk := p.pkgs[sw.PkgPath]
+		if pk == nil {
+			u.errs = append(u.errs, fmt.Sprintf("%s:%d: sweep embeds: package %s not loaded", sw.File, sw.Line, sw.PkgPath))
+			return u
+		}
+		found := map[string]string{}
+		pos := map[string]token.Pos{}
+		for _, f := range pk.Syntax {
+			for _, d := range f.Decls {
+				gd, ok := d.(*ast.GenDecl)
+				if !ok || gd.Tok != token.VAR {
+					continue
+				}
+				for _, sp := range gd.Specs {
+					vs, ok := sp.(*ast.ValueSpec)
+					if !ok {
+						continue
+					}
+					doc := vs.Doc
+					if doc == nil {
+						doc = gd.Doc
+					}
+					if doc == nil {
+						continue
+					}
+					for _, c := range doc.List {
+						if strings.HasPrefix(c.Text, "//go:embed ") {
+							for _, n := range vs.Names {
+								found[n.Name] = strings.TrimSpace(strings.TrimPrefix(c.Text, "//go:embed "))
+								pos[n.Name] = n.Pos()
+							}
+						}
+					}
+				}
+			}
+		}
+		for _, pair := range sw.Pkgs {
+			v, file, ok := strings.Cut(pair, "=")
+			if !ok {
+				u.errs = append(u.errs, fmt.Sprintf("%s:%d: sweep embeds: Var=file expected, got %q", sw.File, sw.Line, pair))
+				continue
+			}
+			o := &Obligation{Name: "embed/" + v, Kind: "structure", Unit: u.name, Pos: u.posString(pos[v]), Desc: "package variable " + v + " embeds the file " + file + " (//go:embed)", Hyp: True, Goal: True, ctx: u.ctx, unit: u, Status: "discharged", Backend: "syntactic"}
+			if found[v] != file {
+				o.Desc += ": it embeds " + fmt.Sprintf("%q", found[v])
+				o.Goal, o.Status, o.Backend, o.Mark = False, "", "", u.ctx.Mark()
+			}
+			u.obls = append(u.obls, o)
+		}
+		return u
+	}
 	if sw.Kind != "constfmt" {
 		u.errs = append(u.errs, fmt.Sprintf("%s:%d: unknown sweep kind %q", sw.File, sw.Line, sw.Kind))
 		return u
